@@ -1224,6 +1224,7 @@ func runC14(c *Ctx) {
 	m, r := c.M, c.R
 	c.St.Rule = "lists and objects with 0-4 elements of each kind interleaved in random order, every typed and untyped view with callbacks from a seeded family; non-trivial = at least two kinds occur at least twice; distinct by container"
 	c.omoList("C14")
+	c.sortedThen("C14")
 	c.omoObj("C14")
 	c.longLists("C14")
 	c.derivedCorners("C14")
@@ -1414,6 +1415,7 @@ func runC17(c *Ctx) {
 	c.St.Rule = "homogeneous string/int/float lists of every length 1..9 over a 3-value alphabet exhaustively, long random lists with extreme values, Reverse on mixed lists of even and odd length; non-trivial = length >= 2; distinct by list"
 	c.rawBytes("C17")
 	c.omoList("C17")
+	c.sortedThen("C17")
 	alph := map[byte][]*GV{
 		'i': {gvInt(-1), gvInt(0), gvInt(7)},
 		's': {gvStr(""), gvStr("a"), gvStr("é")},
@@ -1515,6 +1517,7 @@ func runC18(c *Ctx) {
 	m, r := c.M, c.R
 	c.St.Rule = "numeric lists: all sequences of length <= 5 over {-2.5, -1, 0, 3, 1e300} with ints and floats interleaved, all-negative lists, values near MaxInt/MinInt, non-int elements interleaved for the Int* family; non-trivial = length >= 2; distinct by list"
 	c.omoList("C18")
+	c.sortedThen("C18")
 	c.longLists("C18")
 	aggs := []string{"intsum", "sum", "intprod", "prod", "avg", "intmin", "min", "intmax", "max"}
 	alph := []*GV{gvFloat(-2.5), gvInt(-1), gvInt(0), gvInt(3), gvFloat(1e300), gvFloat(-7), gvInt(-4)}
